@@ -45,6 +45,8 @@ pub fn sources() -> Vec<String> {
     let derive_lists: Vec<&str> = vec![
         "Logos", "Logos, Debug", "Debug, Logos", "Debug, Logos, Clone", "Debug, Clone, Logos", "logos::Logos", "::logos::Logos, Debug", "Debug, logos::Logos, Clone",
         "Debug, serde::Serialize, Logos", "Logos, std::hash::Hash, Eq", "Debug, logos::Logos, serde::Serialize, Clone", "Logos,", "Debug, Logos,",
+        // no Logos derive in the list at all (the derive may sit behind a cfg_attr, or the file is fed to the tool as it is)
+        "Debug", "Debug, Clone",
     ];
     let extra_derive: Vec<&str> = vec!["", "#[derive(PartialEq)]", "#[derive(std::fmt::Debug)]"];
     let enum_attrs: Vec<&str> = vec!["", "#[repr(u8)]", "#[cfg_attr(feature = \"x\", derive(Hash))]", "/// a doc comment", "#[allow(dead_code)]", "#[logos(skip \" \")] #[repr(u8)]", "#[logos(extras = u8)]"];
@@ -101,6 +103,13 @@ pub fn sources() -> Vec<String> {
             v.push(format!("#[derive({d})]\n#[{la}]\nenum T {{\n    #[token(\"a\")] A,\n    #[regex(\"b+\")] B,\n}}\n"));
             v.push(format!("#[{la}]\n#[derive({d})]\n#[logos(skip \" \")]\nenum T {{\n    #[{la}] #[token(\"a\")] A,\n    #[regex(\"b+\")] #[{la}] B(#[{la}] u8),\n}}\n"));
         }
+    }
+    // no derive attribute anywhere / the Logos derive only inside a cfg_attr
+    for body in ["enum T {\n    #[token(\"a\")] A,\n    #[regex(\"b+\")] B,\n}\n", "#[logos(skip \" \")]\nenum T<'a> {\n    #[regex(\"a+\")] A(&'a str),\n    #[token(\"b\")] #[doc = \"x\"] B,\n}\n"] {
+        v.push(body.to_string());
+        v.push(format!("#[cfg_attr(feature = \"lexer\", derive(logos::Logos))]\n#[derive(Debug, PartialEq)]\n{body}"));
+        v.push(format!("#[derive(Debug)]\n#[cfg_attr(all(), derive(Logos))]\n{body}"));
+        v.push(format!("#[repr(u8)]\n{body}"));
     }
     for sh in shapes {
         for d in ["Logos", "Debug, Logos, Clone", "Debug, logos::Logos"] {
